@@ -543,19 +543,48 @@ theorem vleStep_frame (c : Cls K) (st st' : Rows K × VReg K) (e : VEv K)
 
 /-! ### LLE -/
 
+theorem lleSplitCache_sum (z : Nat → K) (phi : K) (K' : List K) (i : Nat) :
+    (lleSplitCache z phi K').1 i + (lleSplitCache z phi K').2 i = z i := by
+  by_cases h : phi < 1
+  · simp [lleSplitCache, h]
+  · simp [lleSplitCache, h]
+
 theorem lleSplit_sum (z : Nat → K) (p : LlePath K) (i : Nat) :
     (lleSplit z p).1 i + (lleSplit z p).2 i = z i := by
   cases p with
   | solve molL => simp [lleSplit]
-  | cache phi K' =>
-    by_cases h : phi < 1
-    · simp [lleSplit, h]
-    · simp [lleSplit, h]
+  | cache phi K' => exact lleSplitCache_sum z phi K' i
+  | cacheRaw raw K' => exact lleSplitCache_sum z _ K' i
 
 /-- The hypothesis on the LLE solver output under which both liquid phases stay non-negative. -/
 def PathOK (z : Nat → K) (idx : List Nat) : LlePath K → Prop
   | .solve molL => ∀ i ∈ idx, 0 ≤ get molL i ∧ get molL i ≤ z i
   | .cache phi Kp => 0 ≤ phi ∧ ∀ i ∈ idx, 0 ≤ phi * get Kp i
+  | .cacheRaw raw Kp => ∀ i ∈ idx, 0 ≤ asValidFraction raw * get Kp i   -- nothing about the root itself: the clip takes care of it
+
+theorem lleSplitCache_nonneg (z : Nat → K) (phi : K) (Kp : List K) (_hphi : 0 ≤ phi) {i : Nat}
+    (hKi : 0 ≤ phi * get Kp i) (hz : 0 ≤ z i) :
+    0 ≤ (lleSplitCache z phi Kp).1 i ∧ 0 ≤ (lleSplitCache z phi Kp).2 i := by
+  by_cases hlt : phi < 1
+  · have hd : 0 < phi * get Kp i + (1 - phi) := by linarith
+    have hne : phi * get Kp i + (1 - phi) ≠ 0 := ne_of_gt hd
+    have e1 : z i * get Kp i / (phi * get Kp i + (1 - phi)) * phi
+        = z i * (phi * get Kp i) / (phi * get Kp i + (1 - phi)) := by
+      field_simp
+    have h1 : 0 ≤ z i * get Kp i / (phi * get Kp i + (1 - phi)) * phi := by
+      rw [e1]; exact div_nonneg (mul_nonneg hz hKi) (le_of_lt hd)
+    have e : z i - z i * get Kp i / (phi * get Kp i + (1 - phi)) * phi
+        = z i * (1 - phi) / (phi * get Kp i + (1 - phi)) := by
+      generalize hdd : phi * get Kp i + (1 - phi) = d at hne
+      have hc : z i * get Kp i / d * phi * d = z i * get Kp i * phi := by field_simp
+      rw [eq_div_iff hne, sub_mul, hc, ← hdd]
+      ring
+    simp only [lleSplitCache, hlt, if_true]
+    refine ⟨h1, ?_⟩
+    rw [e]
+    exact div_nonneg (mul_nonneg hz (by linarith)) (le_of_lt hd)
+  · simp only [lleSplitCache, hlt, if_false]
+    exact ⟨hz, by simp⟩
 
 theorem lleSplit_nonneg (z : Nat → K) (idx : List Nat) (p : LlePath K) (hp : PathOK z idx p)
     {i : Nat} (hi : i ∈ idx) (hz : 0 ≤ z i) : 0 ≤ (lleSplit z p).1 i ∧ 0 ≤ (lleSplit z p).2 i := by
@@ -566,27 +595,10 @@ theorem lleSplit_nonneg (z : Nat → K) (idx : List Nat) (p : LlePath K) (hp : P
     exact ⟨by linarith [this.2], this.1⟩
   | cache phi Kp =>
     obtain ⟨hphi, hK⟩ := hp
-    have hKi := hK i hi
-    by_cases hlt : phi < 1
-    · have hd : 0 < phi * get Kp i + (1 - phi) := by linarith
-      have hne : phi * get Kp i + (1 - phi) ≠ 0 := ne_of_gt hd
-      have e1 : z i * get Kp i / (phi * get Kp i + (1 - phi)) * phi
-          = z i * (phi * get Kp i) / (phi * get Kp i + (1 - phi)) := by
-        field_simp
-      have h1 : 0 ≤ z i * get Kp i / (phi * get Kp i + (1 - phi)) * phi := by
-        rw [e1]; exact div_nonneg (mul_nonneg hz hKi) (le_of_lt hd)
-      have e : z i - z i * get Kp i / (phi * get Kp i + (1 - phi)) * phi
-          = z i * (1 - phi) / (phi * get Kp i + (1 - phi)) := by
-        generalize hdd : phi * get Kp i + (1 - phi) = d at hne
-        have hc : z i * get Kp i / d * phi * d = z i * get Kp i * phi := by field_simp
-        rw [eq_div_iff hne, sub_mul, hc, ← hdd]
-        ring
-      simp only [lleSplit, hlt, if_true]
-      refine ⟨h1, ?_⟩
-      rw [e]
-      exact div_nonneg (mul_nonneg hz (by linarith)) (le_of_lt hd)
-    · simp only [lleSplit, hlt, if_false]
-      exact ⟨hz, by simp⟩
+    exact lleSplitCache_nonneg z phi Kp hphi (hK i hi) hz
+  | cacheRaw raw Kp =>
+    have hphi := (asValidFraction_bounds raw).1
+    exact lleSplitCache_nonneg z _ Kp hphi (hp i hi) hz
 
 /-! ### SLE -/
 
